@@ -330,6 +330,11 @@ func (e *Ev) globalVar(o *types.Var) Term {
 	if _, ok := e.st.heaps[name]; !ok {
 		// globals are modelled as immutable symbolic constants unless written
 		e.g().Pre.add(fmt.Sprintf("(declare-const %s %s)", name, s))
+		if s == sObj && o.Pkg() != nil && o.Pkg() != e.g().P.Pkg.Types && strings.HasPrefix(o.Name(), "Err") {
+			// sentinel errors of dependencies (os.ErrNotExist, ...) are non-nil
+			e.g().Pre.add(fmt.Sprintf("(assert (not (= %s (mkObj 0 0 str_empty))))", name))
+			e.g().Assumed["sentinel error "+o.Pkg().Path()+"."+o.Name()+" is non-nil"] = true
+		}
 		e.st.heaps[name] = Term{S: name, Sort: s, T: o.Type()}
 	}
 	t := e.st.heaps[name]
